@@ -23,6 +23,7 @@ import SkNet.Lemmas.WL
 import SkNet.Model.Path
 import SkNet.Model.Topology
 import SkNet.Model.Heat
+import SkNet.Model.Modularity
 
 namespace SkNet.C01
 open SkNet SkNet.Fmt SkNet.Own
@@ -369,6 +370,48 @@ theorem respects_denote_heat_full_false : ¬ respects_denote_heat_full := by
   have e2 : heatConsumer .dirichlet {} 1 0 1 [[]] = .error .valueError := by rfl
   rw [e1, e2] at this
   cases this
+
+/-- **consumers that also read `nnz`** (every entry point that starts with `check_format`): for *simple* stored forms
+of one matrix — no column twice in a row, no stored zero, any stored order, e.g. what every conversion of a canonical
+matrix produces — `nnz` is the same, so any model of the shape `F nCol nnz valOf` respects the denotation. -/
+theorem respects_denote_val_nnz_simple {β : Type} (F : Nat → Nat → (Nat → Nat → Rat) → β) (nCol : Nat) (rows rows' : Rows)
+    (hw : rowsWF nCol rows = true) (hw' : rowsWF nCol rows' = true) (hs : rowsSimple rows) (hs' : rowsSimple rows')
+    (hlen : rows.length = rows'.length)
+    (h : ∀ i j, i < rows.length → j < nCol → valOf rows i j = valOf rows' i j) :
+    F nCol (storedCount rows) (valOf rows) = F nCol (storedCount rows') (valOf rows') := by
+  have hv := valOf_ext nCol rows rows' hw hw' hlen h
+  rw [storedCount_eq_of_simple rows rows' hs hs' hlen (fun i j => congrFun (congrFun hv i) j), hv]
+
+/-- C05: `get_modularity` (model of `Model/Modularity.lean`) on simple stored forms. -/
+theorem respects_denote_getModularity_simple (labels : List Int) (labelsCol : Option (List Int)) (w : Modularity.Weights) (γ : Rat)
+    (nCol : Nat) (rows rows' : Rows)
+    (hw : rowsWF nCol rows = true) (hw' : rowsWF nCol rows' = true) (hs : rowsSimple rows) (hs' : rowsSimple rows')
+    (hlen : rows.length = rows'.length)
+    (h : ∀ i j, i < rows.length → j < nCol → valOf rows i j = valOf rows' i j) :
+    Modularity.getModularity rows.length nCol (storedCount rows) (valOf rows) labels labelsCol w γ
+      = Modularity.getModularity rows'.length nCol (storedCount rows') (valOf rows') labels labelsCol w γ := by
+  rw [hlen]
+  exact respects_denote_val_nnz_simple (fun nc nnz v => Modularity.getModularity rows'.length nc nnz v labels labelsCol w γ)
+    nCol rows rows' hw hw' hs hs' hlen h
+
+/-- C11: `count_cliques` reads both the summed values (through `get_core_decomposition`) and the stored non-zero
+pattern (through `get_dag`): on non-negative stored values it is a function of the denotation. -/
+theorem respects_denote_countCliques_partial (k : Int) (nCol : Nat) (rows rows' : Rows)
+    (hw : rowsWF nCol rows = true) (hw' : rowsWF nCol rows' = true) (hn : rowsNonneg rows) (hn' : rowsNonneg rows')
+    (hlen : rows.length = rows'.length)
+    (h : ∀ i j, i < rows.length → j < nCol → valOf rows i j = valOf rows' i j) :
+    Topology.countCliquesEntry rows.length nCol (valOf rows) (edgeOf rows) k
+      = Topology.countCliquesEntry rows'.length nCol (valOf rows') (edgeOf rows') k := by
+  rw [edgeOf_ext nCol rows rows' hw hw' hn hn' hlen h, valOf_ext nCol rows rows' hw hw' hlen h, hlen]
+
+example : rowsSimple [[(2, 1), (0, 3)], [(1, 5)]] := by
+  intro r hr
+  simp at hr
+  rcases hr with rfl | rfl
+  · refine ⟨by decide, ?_⟩
+    intro p hp; simp at hp; rcases hp with rfl | rfl <;> decide
+  · refine ⟨by decide, ?_⟩
+    intro p hp; simp at hp; subst hp; decide
 
 /-- C10: the path functions read `indices` and `data`: an edge is a stored entry with a non-zero value. -/
 def distancesConsumer (a : Path.DistArgs) (nCol : Nat) (rows : Rows) :=
